@@ -471,7 +471,7 @@ def _consumption(ctx, P, exc):
                     ctx.ob('C04.7', r[0], fn.name, 'failure of %s()' % name, ev.where(), r[1], r[2])
 
 
-def _freshness(ctx, P, exc):
+def _freshness(ctx, P, exc, rule='C04.8'):
     from ..guard import zero_edges_of_call
     from ..graph import ret_class
     BASE = {'jls_core_rd_chunk', 'reconstruct_omitted_chunk'}
@@ -527,7 +527,7 @@ def _freshness(ctx, P, exc):
             if w is None:
                 refreshers.add(g.name)
                 changed = True
-    ctx.note('C04.8: buffer refreshers derived: %s' % sorted(refreshers))
+    ctx.note(rule + ': buffer refreshers derived: %s' % sorted(refreshers))
     reader_side = [f for f in P.all_functions() if f.file in ('src/core.c', 'src/reader.c', 'src/track.c') and
                    not f.name.startswith(('jls_core_wr_', 'jls_track_wr_', 'jls_wr_'))]
     memo = {}
@@ -580,7 +580,7 @@ def _freshness(ctx, P, exc):
         if r is not None and k in exc:
             ctx.note('exception %s: %s' % (k, exc[k]))
             continue
-        ctx.ob('C04.8', r is None, fn.name, 'read buffer is fresh where its bytes are used', fn.where(),
+        ctx.ob(rule, r is None, fn.name, 'read buffer is fresh where its bytes are used', fn.where(),
                'every use follows a successful checked read / reconstruction on the same path' if r is None else
                'bytes of the read buffer are used at %s without a successful checked read before it on that path (a cached or failed read would be returned as valid)' % r[0].where(),
                r[1].render() if r else None)
